@@ -242,11 +242,12 @@ def run_e2e(case: dict, worker: str) -> dict:
 
     cfg = {"keep_alive_timeout": 30, "websocket_ping_interval": None}
     scripts = [_app(case), SIB] if (proto == "h2" and case["pressure"] == "window") else [_app(case)]
-    return R.RUNNERS[worker](cfg, "h2" if proto in ("h2", "wsh2") else None, client, scripts, tail=5)
+    return G9._runner(worker)(cfg, "h2" if proto in ("h2", "wsh2") else None, client, scripts, tail=5)
 
 
 def check_e2e(ctx: Ctx, cases: List[dict]) -> None:
     high = G9._high()
+    stuck = 0
     for case in cases:
         for worker in ("asyncio", "trio"):
             res = run_e2e(case, worker)
@@ -258,6 +259,9 @@ def check_e2e(ctx: Ctx, cases: List[dict]) -> None:
             sig = {"layer": "e2e", "proto": case["proto"], "pressure": case["pressure"], "worker": worker}
             if res.get("stuck_session"):
                 ctx.violation("spinning", cc, "the session never reported", {**sig, "error": "stuck"})
+                stuck += 1
+                if stuck >= 3:
+                    return
                 continue
             cr = res.get("client_result")
             if not cr or not res["apps"]:
